@@ -239,7 +239,23 @@ fn gen_denom(g: &mut Gen) -> usize {
 
 fn gen_coins(g: &mut Gen, led: &Ledger, from: Option<Acct>) -> Vec<C> {
     let bal = |d: usize| from.map(|a| led.get(a, d)).unwrap_or(1000);
-    match g.weighted(&[10, 4, 2, 2, 1]) {
+    match g.weighted(&[10, 4, 2, 2, 1, 1]) {
+        5 => {
+            // a long list (nine to fourteen coins): every denomination once, some of them again, small amounts
+            let extra = g.below(5);
+            let mut v: Vec<C> = (0..DENOMS.len()).map(|d| C(d, 1 + g.below(3) as u128)).collect();
+            if g.chance(1, 3) {
+                v.remove(g.below(v.len()));
+            }
+            for _ in 0..extra {
+                let at = g.below(v.len() + 1);
+                v.insert(at, C(gen_denom(g), 1 + g.below(9) as u128));
+            }
+            if g.bool() {
+                v.reverse();
+            }
+            v
+        }
         0 => {
             let d = gen_denom(g);
             vec![C(d, gen_amount(g, bal(d)))]
@@ -473,7 +489,7 @@ impl Check for BankCheck {
         Spec {
             id: "C09",
             level: "exploration",
-            rule: "generated: histories of 1-40 bank operations (init_balance, sudo mint, send, burn, send_tokens, and contract-initiated sends/burns with attached funds) over 4 users, 5 never-seen recipients and a contract, 10 denominations (three common ones; sometimes all ten minted at once, in descending order), coin lists of 0-5 coins with repeated denominations, zeros mixed in, all-zero and empty lists, amounts relative to the sender's balance (0, 1, bal-1, bal, bal+1, duplicate split summing to bal or bal+1); after every op every Balance/AllBalances/Supply answer is compared with a reference ledger and failed ops must leave root storage byte-identical; the forwarder contract asks the same queries through its own querier in the middle of the transaction (after the attached funds arrived, and again after its own sends/burns) and must get the ledger of that moment. Non-trivial: the history contains a transfer with a repeated denomination, a self-transfer and a rejected overdraft, with >=2 denominations live; distinct = distinct serialised history",
+            rule: "generated: histories of 1-40 bank operations (init_balance, sudo mint, send, burn, send_tokens, and contract-initiated sends/burns with attached funds) over 4 users, 5 never-seen recipients and a contract, 10 denominations (three common ones; sometimes all ten minted at once, in descending order), coin lists of 0-5 coins with repeated denominations, zeros mixed in, all-zero and empty lists, amounts relative to the sender's balance (0, 1, bal-1, bal, bal+1, duplicate split summing to bal or bal+1); after every op every Balance/AllBalances/Supply answer is compared with a reference ledger and failed ops must leave root storage byte-identical; the forwarder contract asks the same queries through its own querier in the middle of the transaction (after the attached funds arrived, and again after its own sends/burns) and must get the ledger of that moment. Non-trivial: the history contains a transfer with a repeated denomination, a self-transfer and a rejected overdraft, with >=2 denominations live; distinct = distinct serialised history Coin lists of nine to fourteen coins (every denomination, some repeated, either order) occur in about one list in twenty",
             assumptions: vec![
                 "amounts capped at 2^90 per coin and <= 40 operations, so no balance or supply reaches 2^128 (precondition of the statement)",
                 "recipients are valid bech32 addresses so that queries can observe them",
